@@ -188,7 +188,7 @@ class _Gen:
 
 @st.composite
 def languages(draw, max_assets=5, max_expr_depth=2, deep_chains=False, arith_ttc=True,
-              dup_assoc_names=True, min_assets=1):
+              dup_assoc_names=True, min_assets=1, shuffle_assets=True):
     n_assets = draw(st.integers(min_assets, max_assets))
     names = ASSET_NAMES[:n_assets]
     n_cat = draw(st.integers(1, 2))
@@ -360,6 +360,9 @@ def languages(draw, max_assets=5, max_expr_depth=2, deep_chains=False, arith_ttc
                           'risk': risk, 'ttc': _ttc(draw, typ, arith_ttc), 'requires': requires,
                           'reaches': reaches})
         a['attackSteps'] = steps
+    if shuffle_assets and len(assets) > 1 and draw(st.booleans()):
+        # a sub-asset may be declared before its super-asset (as in coreLang)
+        spec['assets'] = list(draw(st.permutations(assets)))
     return spec
 
 
